@@ -83,7 +83,7 @@ TUpReset == /\ IsEvent("upreset")
 TATerm == /\ IsEvent("aterm")
           /\ IF lost THEN UNCHANGED <<vars, lost>>
              ELSE IF Ev.ok
-               THEN IF CanATerm THEN ATerm /\ lost' = FALSE ELSE Diverge("terminate-stream-succeeded-on-finished-request")
+               THEN IF CanATerm THEN ATerm /\ lost' = FALSE ELSE Diverge("terminate-stream-succeeded-after-the-response-or-the-end")
                ELSE IF CanATerm THEN Diverge("terminate-stream-refused-while-waiting") ELSE UNCHANGED <<vars, lost>>
 
 TReply == /\ IsEvent("reply")
